@@ -16,7 +16,7 @@ BOUNDS = {
              'towards a symbolic goal on 3-node trees (chain and star). All paths explored (no budget cut). Whole runs: 60 random configurations '
              '(seeds, 0..12 boxes, terrain, bounds, budgets 1..60, both distance modes, neighbour limits 1..20, default and caller-supplied callbacks) '
              'on the real library with the real R-tree.',
-    'thorough': 'two draws (one rejection), 3-node pre-trees (chain, star), a 2-D instance; 600 whole runs with budgets up to 400',
+    'thorough': 'two draws (one rejection), 3-node pre-trees (chain, star), a 2-D instance; 300 whole runs with budgets up to 200',
 }
 OUTSIDE = ['trees larger than 3 nodes and more than 2 rejected draws per iteration symbolically', 'the real libspatialindex R-tree is replaced by '
            'an exact in-memory index with the documented nearest / intersection semantics (the real one is used in the concrete runs)',
@@ -24,8 +24,11 @@ OUTSIDE = ['trees larger than 3 nodes and more than 2 rejected draws per iterati
 ASSUMPTIONS = ['rtree.index double: nearest(q, k) = the k items with smallest box distance, ties included, insertion order among equals',
                'random / caller-supplied generator: arbitrary values; collision callback: arbitrary predicate, deterministic per pair within an iteration']
 EXPLORER_DEFAULTS = {'quick': dict(prove_timeout_ms=20000, branch_timeout_ms=3000, time_budget_s=700, max_paths=6000, max_decisions=120),
-                     'thorough': dict(prove_timeout_ms=60000, branch_timeout_ms=5000, time_budget_s=3000, max_paths=40000, max_decisions=200)}
+                     'thorough': dict(prove_timeout_ms=60000, branch_timeout_ms=5000, time_budget_s=1200, max_paths=40000, max_decisions=200)}
 TOL = '1e-9'
+# rejection sampling cannot succeed for some random layouts (start pose inside an obstacle, no admissible distance band): the planner then loops
+# for ever - termination is not part of the property - so such a whole-run sample is rejected after this many seconds instead of hanging the check
+SAMPLE_TIME_LIMIT_S = 30
 
 
 def h_step(w):
@@ -209,6 +212,9 @@ def h_runs(w):
     for k in range(nbox):
         c = [rng.uniform(-half, half) for _ in range(3)]
         e = [rng.uniform(0.2, half / 3) for _ in range(3)]
+        o3 = [float(origin[i]) for i in range(3)]
+        if all(c[i] - e[i] - 0.3 <= o3[i] <= c[i] + e[i] + 0.3 for i in range(3)):
+            continue                  # a box around the start pose blocks every first edge: the planner cannot make progress
         planner.addObstruction([c[i] - e[i] for i in range(3)], [c[i] + e[i] for i in range(3)])
     if w.real('terrain', 0, 1) > 0.7:
         planner.generateTerrain(4, 4, 2, 2, 1.0, -2, -2)
@@ -320,6 +326,6 @@ def cases(tier, seed):
         cs.append(Case('step_pre2_chain', h_step, params=dict(pre=2, parents=(0, 1), limit=3)))
         cs.append(Case('step_pre2_star', h_step, params=dict(pre=2, parents=(0, 0), limit=2)))
         cs.append(Case('step_pre1_2d', h_step, params=dict(pre=1, limit=2, dims=2)))
-    cs.append(Case('whole_runs', h_runs, params=dict(itmax=60 if tier == 'quick' else 400), concrete_only=True,
-                   concrete_samples=60 if tier == 'quick' else 600))
+    cs.append(Case('whole_runs', h_runs, params=dict(itmax=60 if tier == 'quick' else 200), concrete_only=True,
+                   concrete_samples=60 if tier == 'quick' else 300))
     return cs
